@@ -27,9 +27,11 @@ fn lit_of(t: &ST) -> Literal {
         _ => panic!("not a literal"),
     }
 }
-/// pattern position from the spec's JSON: {"var":..} | {"bn":..} | {"term":T}
+/// pattern position from the spec's JSON: {"var":..} | {"bn":..} | {"term":T} | {"qt":[pos, pos, pos]} (quoted-triple pattern)
 fn term_pattern(v: &Value) -> TermPattern {
-    if let Some(x) = v.get("var") {
+    if let Some(q) = v.get("qt") {
+        TermPattern::Triple(Box::new(TriplePattern { subject: term_pattern(&q[0]), predicate: pred_pattern(&q[1]), object: term_pattern(&q[2]) }))
+    } else if let Some(x) = v.get("var") {
         TermPattern::Variable(Variable::new_unchecked(x.as_str().unwrap()))
     } else if let Some(x) = v.get("bn") {
         TermPattern::BlankNode(BlankNode::new_unchecked(x.as_str().unwrap()))
@@ -151,16 +153,32 @@ fn data_terms() -> (Vec<ST>, Vec<ST>, Vec<ST>) {
     ];
     (iris, preds, lits)
 }
+/// quoted triples of the data: sharing components with each other and with the asserted triples, one nested, one with a blank node
+fn quoted_terms() -> Vec<ST> {
+    let (iris, preds, lits) = data_terms();
+    let qt = |s: &ST, p: &ST, o: &ST| SimpleTerm::Triple(Box::new([s.clone(), p.clone(), o.clone()]));
+    let inner = qt(&iris[0], &preds[0], &iris[1]);
+    vec![
+        inner.clone(),
+        qt(&iris[0], &preds[0], &lits[0]),
+        qt(&iris[1], &preds[1], &iris[1]),
+        qt(&bn("b1"), &preds[0], &iris[0]),
+        qt(&inner, &preds[1], &lits[0]),
+        qt(&iris[0], &preds[1], &inner),
+    ]
+}
 pub fn rand_data(rng: &mut Rng) -> Vec<Q> {
     let (iris, preds, lits) = data_terms();
     let gs: [GraphName<ST>; 4] = [None, None, Some(iri("http://ex/g1")), Some(iri("http://ex/g2"))];
     let n = rng.below(7);
     let mut d: Vec<Q> = vec![];
     for _ in 0..n {
-        let s = if rng.chance(1, 6) { bn("b1") } else { rng.pick(&iris).clone() };
-        let o = match rng.below(5) {
+        let quoted = quoted_terms();
+        let s = if rng.chance(1, 6) { bn("b1") } else if rng.chance(1, 8) { rng.pick(&quoted).clone() } else { rng.pick(&iris).clone() };
+        let o = match rng.below(6) {
             0 | 1 => rng.pick(&iris).clone(),
             2 => bn("b1"),
+            3 if rng.chance(2, 3) => rng.pick(&quoted).clone(),
             _ => rng.pick(&lits).clone(),
         };
         let q: Q = ([s, rng.pick(&preds).clone(), o], rng.pick(&gs).clone());
@@ -179,7 +197,19 @@ pub fn rand_data(rng: &mut Rng) -> Vec<Q> {
 }
 const VARS: [&str; 4] = ["x", "y", "z", "g"];
 fn rand_pos(rng: &mut Rng, object: bool) -> Value {
-    let (iris, _, lits) = data_terms();
+    rand_pos_at(rng, object, 0)
+}
+fn rand_pos_at(rng: &mut Rng, object: bool, depth: usize) -> Value {
+    let (iris, preds, lits) = data_terms();
+    if depth < 2 && rng.chance(1, 9) {
+        // quoted-triple pattern (variables and placeholders inside are shared with the rest of the group), or a ground quoted triple
+        if rng.chance(1, 4) {
+            let ground: Vec<ST> = quoted_terms().into_iter().filter(|t| !has_bnode(t)).collect();
+            return json!({"term": term_json(rng.pick(&ground))});
+        }
+        let p = if rng.chance(1, 3) { json!({"var": *rng.pick(&VARS[..3])}) } else { json!({"term": term_json(rng.pick(&preds))}) };
+        return json!({"qt": [rand_pos_at(rng, false, depth + 1), p, rand_pos_at(rng, true, depth + 1)]});
+    }
     match rng.below(10) {
         0..=4 => json!({"var": *rng.pick(&VARS[..3])}),
         5 => json!({"bn": *rng.pick(&["n", "m", "x"])}),
@@ -247,6 +277,65 @@ fn distinct_of_disjoint_union(rng: &mut Rng) -> Value {
     let r = json!({"op":"bgp","tps":[[{"var":"y"},{"term":p},o]]});
     let u = json!({"op":"union","l":l,"r":r});
     if rng.chance(1, 2) { json!({"op":"distinct","inner":u}) } else { json!({"op":"distinct","inner":{"op":"project","vars":["x","y"],"inner":u}}) }
+}
+/// a pattern position that matches the term `t`: the term itself, a variable, a placeholder or (for a quoted triple) a quoted-triple
+/// pattern whose components are generalised the same way - queries aimed at the data, so that quoted-triple patterns have solutions
+fn has_bnode(t: &ST) -> bool {
+    match t {
+        SimpleTerm::BlankNode(_) => true,
+        SimpleTerm::Triple(tr) => tr.iter().any(has_bnode),
+        _ => false,
+    }
+}
+fn generalise(rng: &mut Rng, t: &ST, predicate: bool, depth: usize, used: &mut Vec<(String, ST)>) -> Value {
+    if let SimpleTerm::Triple(tr) = t {
+        // (a blank node of the data cannot be written as a constant: in a pattern it is a placeholder)
+        if has_bnode(t) || (depth < 3 && rng.chance(2, 3)) {
+            return json!({"qt": [generalise(rng, &tr[0], false, depth + 1, used), generalise(rng, &tr[1], true, depth + 1, used), generalise(rng, &tr[2], false, depth + 1, used)]});
+        }
+    }
+    // a name already standing for another term would make the statement it was drawn from a non-solution: one time in ten only
+    let mut name = |rng: &mut Rng, pool: &[&str], prefix: &str| -> Option<String> {
+        let allow_clash = rng.chance(1, 10);
+        for _ in 0..4 {
+            let n = format!("{prefix}{}", rng.pick(pool));
+            let clash = used.iter().any(|(k, v)| *k == n && !sophia_api::term::Term::eq(v, t.borrow_term()));
+            if !clash || allow_clash {
+                used.push((n.clone(), t.clone()));
+                return Some(n[prefix.len()..].to_string());
+            }
+        }
+        None
+    };
+    let chosen = match rng.below(6) {
+        0 | 1 if !has_bnode(t) => None,
+        2 if !predicate => name(rng, &["n", "m"], "_:").map(|n| json!({"bn": n})),
+        _ => name(rng, &VARS[..3], "?").map(|n| json!({"var": n})),
+    };
+    match chosen {
+        Some(c) => c,
+        None if !has_bnode(t) => json!({"term": term_json(t)}),
+        None => json!({"bn": format!("k{}", used.len())}),
+    }
+}
+fn aimed_quoted(rng: &mut Rng, d: &[Q]) -> Value {
+    let with_quoted: Vec<&Q> = d.iter().filter(|q| q.0[0].is_triple() || q.0[2].is_triple()).collect();
+    let n = 1 + rng.below(2);
+    let mut used: Vec<(String, ST)> = vec![];
+    let tps: Vec<Value> = (0..n)
+        .map(|i| {
+            let q = if i == 0 && !with_quoted.is_empty() { *rng.pick(&with_quoted) } else { rng.pick(d) };
+            json!([generalise(rng, &q.0[0], false, 0, &mut used), generalise(rng, &q.0[1], true, 0, &mut used), generalise(rng, &q.0[2], false, 0, &mut used)])
+        })
+        .collect();
+    let bgp = json!({"op":"bgp","tps":tps});
+    match rng.below(6) {
+        0 => json!({"op":"graphv","v":"g","inner":bgp}),
+        1 => json!({"op":"distinct","inner":bgp}),
+        2 => json!({"op":"filter","e": rand_expr(rng, 0),"inner":bgp}),
+        3 => json!({"op":"union","l":bgp,"r": rand_pattern(rng, 2)}),
+        _ => bgp,
+    }
 }
 pub fn rand_pattern(rng: &mut Rng, depth: usize) -> Value {
     if depth <= 1 && rng.chance(1, 25) {
@@ -323,8 +412,20 @@ pub fn main(args: &[String]) {
     let mut rng = Rng::new(seed ^ 0x13);
     if mode == "c13" {
         for i in 0..n {
-            let d = rand_data(&mut rng);
-            let p = rand_pattern(&mut rng, 0);
+            let mut d = rand_data(&mut rng);
+            if i % 6 == 5 {
+                // aimed at quoted triples: the data has one at least (as subject and / or object), the query generalises statements of the data
+                let (iris, preds, _) = data_terms();
+                let quoted = quoted_terms();
+                for _ in 0..1 + rng.below(2) {
+                    let (s, o) = match rng.below(3) { 0 => (rng.pick(&quoted).clone(), rng.pick(&iris).clone()), 1 => (rng.pick(&iris).clone(), rng.pick(&quoted).clone()), _ => (rng.pick(&quoted).clone(), rng.pick(&quoted).clone()) };
+                    let q: Q = ([s, rng.pick(&preds).clone(), o], if rng.chance(1, 3) { Some(iri("http://ex/g1")) } else { None });
+                    if !d.iter().any(|x| crate::iso::same_quad(x, &q)) {
+                        d.push(q);
+                    }
+                }
+            }
+            let p = if i % 6 == 5 { aimed_quoted(&mut rng, &d) } else { rand_pattern(&mut rng, 0) };
             let ask = rng.chance(1, 8);
             let ev = guarded(|| {
                 let pat = pattern(&p);
